@@ -10,7 +10,8 @@ RULE = ("ThompsonSampling alone and under Radius, KNearest, LSHNearest, Clusters
         "from: per-arm thresholds 'r >= t[arm]' / 'r <= t[arm]' (thresholds > 1, so not idempotent on {0,1}), parity, "
         "flip (1 - r on {0,1}); one bandit in four starts without a binarizer and receives its first one through add_arm; "
         "n_jobs in {1,2,3,-1} (threading); small integer and half-integer rewards; histories of fit, partial_fit, add_arm(arm, "
-        "new binarizer) followed by partial_fit, remove_arm, queries. Twin: ThompsonSampling() without binarizer, same "
+        "new binarizer) followed by partial_fit, remove_arm, queries, and partial_fit calls in which the binarizer raises on one "
+        "reward (the call fails; the twin skips it). Twin: ThompsonSampling() without binarizer, same "
         "seed and neighbourhood policy, fed int(binarizer(decision, reward)) computed with the binarizer current at the "
         "time of each observation, same calls. predict_expectations and predict must be identical. Non-trivial: the "
         "binarizer changes at least one of the values {0,1} for some arm, and at least one reward converts to 1.")
@@ -25,6 +26,7 @@ NPS = [None, "Radius", "KNearest", "LSHNearest", "Clusters", "TreeBandit"]
 
 
 D5 = "D5-treebandit-double-binarization"
+POISON = 7777        # a reward every generated binarizer raises on (never drawn by the reward families)
 
 
 def identity_on_01(desc, arms):
@@ -50,6 +52,7 @@ def draw_binarizer(draw, arms, npn, ctx, pool=None):
             not identity_on_01(b, list(arms) + list(pool or [])):
         ctx.exclude(D5)
         b = draw(identity01_binarizer_st(arms))
+    b = dict(b, poison=POISON)
     return b
 
 
@@ -67,21 +70,34 @@ def plan_st(draw, tier, ctx=None):
     h = gen.History(draw, cfg, reward_family="B" if late else fam,
                     grid=draw(st.sampled_from(["int", "small"])), max_rows=8)
     h.fit() if draw(st.integers(0, 3)) else h.partial_fit()
+    h.binarizer_now = not late
     if late:
         if draw(st.booleans()):
             h.query()
         if h.can_add():
             h.add_arm(draw_binarizer(draw, h.arms, npn, ctx, gen.POOLS[kind]))
+            h.binarizer_now = True
             h.family = fam
             if draw(st.booleans()):
                 h.query()        # the new binarizer is for subsequent observations: stored rewards stay as they are
             h.partial_fit(omit=False)
     for _ in range(draw(st.integers(1, 8 if tier == "quick" else 14))):
         k = draw(st.sampled_from(["partial_fit", "partial_fit", "fit", "add_arm", "add_arm_b", "remove_arm", "query",
-                                  "query"]))
-        if k == "add_arm_b":
+                                  "query", "partial_fit_poisoned"]))
+        if k == "partial_fit_poisoned":
+            if h.binarizer_now and h.fitted:
+                # the binarizer raises on one reward of the batch: the call fails, what was stored before stays
+                # stored, and stays converted exactly once
+                dec, rew, cx = h.batch()
+                rew = list(rew)
+                rew[draw(st.integers(0, len(rew) - 1))] = POISON
+                h.ops.append(["partial_fit_poisoned", dec, rew, cx])
+                if draw(st.booleans()):
+                    h.query()
+        elif k == "add_arm_b":
             if h.can_add():
                 h.add_arm(draw_binarizer(draw, h.arms, npn, ctx, gen.POOLS[kind]))
+                h.binarizer_now = True
                 h.partial_fit(omit=False)
         elif k == "query":
             h.query()
@@ -112,6 +128,14 @@ def evaluate(plan, ctx):
     ev = twin.pair_events(cfg)
     for i, op in enumerate(plan["ops"]):
         op2 = op
+        if op[0] == "partial_fit_poisoned":
+            oa = ops.apply_op(a, ["partial_fit"] + list(op[1:]))
+            if not ops.is_exc(oa):
+                raise Violation("binarizer_not_applied", "op %d: partial_fit accepted a batch with a reward the "
+                                "binarizer raises on (rewards %r): the binarizer was not applied to every reward"
+                                % (i, op[2]), bucket="binarizer_not_applied")
+            ev.append("failed_partial_fit")
+            continue
         if op[0] in ("fit", "partial_fit"):
             conv = [int(cur(d, r)) for d, r in zip(op[1], op[2])]
             any_one = any_one or any(conv)
